@@ -565,6 +565,17 @@ func (e *Engine) instrWrites(fc *FnCtx, in ssa.Instruction, ws map[string]HeapVa
 			}
 			return
 		}
+		if len(callee.Blocks) == 0 {
+			for _, d := range e.CS.HavocOn {
+				if strings.HasPrefix(fullName(callee), d.Prefix) {
+					for _, g := range d.Ghosts {
+						if hv, ok := e.heapByName(fc, d.PkgPath, g); ok {
+							add(hv)
+						}
+					}
+				}
+			}
+		}
 		if len(callee.Blocks) == 0 && touchesBuffer(callee) {
 			add(bufLenVar)
 			add(bufItemsVar)
